@@ -58,7 +58,7 @@ func (c07) Generate(r *engine.Rand, index int, tier string) *engine.Scenario {
 	at := uint64(1)
 	add := func(a uint16, v uint8) {
 		sc.Events = append(sc.Events, engine.Event{At: at, K: "bus_w", A: a, V: v})
-		at += uint64(r.Intn(4))
+		at += uint64(r.Range(1, 4)) // at most one bus operation per boundary (a guest writes once per cycle)
 	}
 	if index%3 == 2 {
 		// the registers with documented side effects, written in quick succession so that each is hit in many machine states
